@@ -100,7 +100,7 @@ M.lemma("expand_snoc", vars=dict(a=Ents, e=Ent, ps=SEQS), hyps=[], goal="expand(
 M.lemma("expand_nil", vars=dict(ms=Ents), hyps=[], goal="expand(ms, []) == ms", induct="ms", pattern="expand(ms, [])", properties=["C13"])
 
 M.contract(F, "_resolve_json_pointers", params=dict(pattern=STR, content=DObj), ret=Ptrs,
-           locals=dict(matched=Ents, new_matched=Ents, keys_and_docs=KDs, ret=Ptrs), comp_types={"*": KDs},
+           locals=dict(matched=Ents, new_matched=Ents, keys_and_docs=KDs, ret=Ptrs), comp_types={1: KDs, 2: KDs},
            ensures=["result == ptrs(rp(pparts(ptr_of(pattern)), [], content))"],
            loops={1: dict(match="parts", inv=["expand(matched, _rest1) == rp(pparts(ptr_of(pattern)), [], content)"]),
                   2: dict(match="matched",
